@@ -300,9 +300,16 @@ impl Run {
     pub fn par<F: Fn(usize, &mut Local) + Sync>(&self, n: usize, f: F) {
         let next = AtomicUsize::new(0);
         let nthreads = self.threads.min(n.max(1));
+        // watchdog: the work item each worker is on and since when; a subject that does not
+        // return (the explorers run the subject in-process) is reported instead of hanging the check
+        let slots: Vec<Mutex<Option<(usize, Instant)>>> = (0..nthreads).map(|_| Mutex::new(None)).collect();
+        let running = AtomicUsize::new(nthreads);
+        let stall = Duration::from_secs(std::env::var("VERIF_STALL_S").ok().and_then(|s| s.parse().ok()).unwrap_or(if self.tier.quick() { 90u64 } else { 1800u64 }));
         std::thread::scope(|s| {
-            for _ in 0..nthreads {
-                s.spawn(|| {
+            for t in 0..nthreads {
+                let slot = &slots[t];
+                let (next, running, f) = (&next, &running, &f);
+                s.spawn(move || {
                     let mut local = Local::new();
                     loop {
                         let i = next.fetch_add(1, Ordering::Relaxed);
@@ -313,15 +320,81 @@ impl Run {
                             local.count("items_skipped_wall_cap", 1);
                             continue;
                         }
+                        *slot.lock().unwrap() = Some((i, Instant::now()));
                         let r = catch_unwind(AssertUnwindSafe(|| f(i, &mut local)));
+                        *slot.lock().unwrap() = None;
                         if let Err(_) = r {
                             self.machinery_error(format!("harness panic in work item {} (unguarded)", i));
                         }
                     }
                     self.merge(local);
+                    running.fetch_sub(1, Ordering::SeqCst);
                 });
             }
+            let (slots, running) = (&slots, &running);
+            s.spawn(move || {
+                while running.load(Ordering::SeqCst) > 0 {
+                    std::thread::sleep(Duration::from_millis(200));
+                    for slot in slots.iter() {
+                        let v = *slot.lock().unwrap();
+                        if let Some((i, t0)) = v {
+                            if t0.elapsed() > stall {
+                                self.report_hang(i, t0.elapsed());
+                            }
+                        }
+                    }
+                }
+            });
         });
+    }
+
+    /// A work item has not returned within the stall limit: the subject hangs (or is slower by
+    /// orders of magnitude than on the unchanged tree). Written out as a violation; the process
+    /// ends here because the hung thread cannot be interrupted.
+    fn report_hang(&self, item: usize, after: Duration) -> ! {
+        let family = self.sh.lock().map(|sh| sh.bounds.last().map(|b| b.0.clone()).unwrap_or_default()).unwrap_or_default();
+        let dir = self.root.join("replays").join(self.id);
+        let _ = std::fs::remove_dir_all(&dir);
+        let _ = std::fs::create_dir_all(&dir);
+        let path = dir.join("hang.scene");
+        let body = format!(
+            "property={}\ntier={}\nsig=hang/subject-did-not-return\ncase=hang family={:?} work_item={}\n--- detail\nwork item {} of the family {:?} had not returned after {:.0} s (stall limit; the whole tier normally takes less); the cases of a work item are enumerated in a fixed order, so rerunning the tier reproduces it\n",
+            self.id,
+            self.tier.name(),
+            family,
+            item,
+            item,
+            family,
+            after.as_secs_f64()
+        );
+        let _ = std::fs::write(&path, body);
+        let wall = self.start.elapsed().as_secs_f64();
+        let ev = J::obj()
+            .put("property_id", J::s(self.id))
+            .put("tier", J::s(self.tier.name()))
+            .put("seed", J::Int(self.seed))
+            .put("level", J::s("model_checking"))
+            .put(
+                "coverage",
+                J::obj()
+                    .put("states", J::Int(0))
+                    .put("transitions", J::Int(0))
+                    .put("traces_validated_against_impl", J::Int(0))
+                    .put("evaluations", J::Int(0))
+                    .put("distinct_nontrivial", J::Int(0))
+                    .put("rule", J::s(self.rule.lock().map(|r| r.clone()).unwrap_or_default()))
+                    .put("samples", J::Arr(vec![J::s(format!("hang family={:?} work_item={}", family, item))]))
+                    .put("exhaustive", J::Bool(false))
+                    .put("hang", J::s(format!("work item {} of family {:?} did not return within {:.0} s; counts of the interrupted run are not available", item, family, after.as_secs_f64()))),
+            )
+            .put("wall_s", J::Num((wall * 1000.0).round() / 1000.0))
+            .put("violations", J::Int(1));
+        let evdir = self.root.join("evidence");
+        let _ = std::fs::create_dir_all(&evdir);
+        let _ = std::fs::write(evdir.join(format!("{}.json", self.id)), ev.render());
+        println!("VIOLATION property={} replay={}", self.id, path.display());
+        println!("FAIL {} tier={} hang: work item {} of family {:?} did not return within {:.0} s", self.id, self.tier.name(), item, family, after.as_secs_f64());
+        std::process::exit(1);
     }
 
     /// single-threaded section with its own Local
